@@ -123,6 +123,8 @@ def instr_text(i):
         return f'{i[0]} {text(i[1])}'
     if i[0] in BODY1:
         return f'{i[0]} {code_text(i[1])}'
+    if i[0] == 'LAMBDA':
+        return f'LAMBDA {text(i[1])} {text(i[2])} {code_text(i[3])}'
     if i[0] in BRANCHY:
         return f'{i[0]} {code_text(i[1])} {code_text(i[2])}'
     if i[0] == 'DIP':
@@ -144,6 +146,8 @@ def c_ty(cls):
         return f'(TyOption {a} {c_ty(cls.args[0])})'
     if cls.prim == 'list':
         return f'(TyList {a} {c_ty(cls.args[0])})'
+    if cls.prim == 'lambda':
+        return f'(TyLambda {a} {c_ty(cls.args[0])} {c_ty(cls.args[1])})'
     if cls.prim == 'or':
         return f'(TyOr {a} {c_ty(cls.args[0])} {c_ty(cls.args[1])})'
     return f'(TyPrim {a} x{lib.prim_tag(cls.prim):02x})'
@@ -200,6 +204,8 @@ def c_instr(i):
         return f'(IPushT {c_tyexpr(i[1])} {lib.cnode(i[2])})'
     if i[0] in ('UNPACK', 'NONE', 'LEFT', 'RIGHT', 'NIL'):
         return '(' + {'UNPACK': 'IUnpack', 'NONE': 'INone', 'LEFT': 'ILeft', 'RIGHT': 'IRight', 'NIL': 'INil'}[i[0]] + ' ' + c_tyexpr(i[1]) + ')'
+    if i[0] == 'LAMBDA':
+        return f'(ILambda {c_tyexpr(i[1])} {c_tyexpr(i[2])} {c_code(i[3])})'
     if i[0] in BODY1:
         return '(' + {'ITER': 'IIter', 'MAP': 'IMap', 'LOOP': 'ILoop'}[i[0]] + ' ' + c_code(i[1]) + ')'
     if i[0] in ('EQ', 'NEQ', 'LT', 'GT', 'LE', 'GE'):
@@ -213,7 +219,7 @@ def c_instr(i):
     if i[0] in ('GET', 'UPDATE', 'PAIR', 'UNPAIR') and len(i) == 2:
         return '(' + {'GET': 'IGet', 'UPDATE': 'IUpdate', 'PAIR': 'IPairN', 'UNPAIR': 'IUnpairN'}[i[0]] + ' ' + cnat(i[1]) + ')'
     return {'CAR': 'ICar', 'CDR': 'ICdr', 'PAIR': 'IPair', 'UNPAIR': 'IUnpair', 'COMPARE': 'ICompare', 'PACK': 'IPack',
-            'DUP': 'IDup', 'SWAP': 'ISwap', 'DROP': 'IDrop', 'SOME': 'ISome', 'UNIT': 'IUnit', 'CONS': 'ICons'}[i[0]]
+            'DUP': 'IDup', 'SWAP': 'ISwap', 'DROP': 'IDrop', 'SOME': 'ISome', 'UNIT': 'IUnit', 'CONS': 'ICons', 'EXEC': 'IExec', 'APPLY': 'IApply'}[i[0]]
 
 
 
@@ -307,6 +313,8 @@ def has_packed(x):
         return any(has_packed(i) for i in x.items if hasattr(i, 'prim'))
     if getattr(x, 'prim', '') == 'option':
         return x.item is not None and has_packed(x.item)
+    if getattr(x, 'prim', '') == 'lambda':
+        return True      # lambdas are not rendered by the model either
     return getattr(x, 'prim', '') == 'bytes' and x.value[:1] == b'\x05'
 
 
@@ -395,6 +403,25 @@ def gen_program(rng):
                     emit(('CONS',))
             elif r < 0.15:
                 push(('list', gen_comb(rng, 1, rng.choice([2, 3]))))
+            elif r < 0.21:
+                # LAMBDA / EXEC and LAMBDA / APPLY / EXEC with annotated parameter types and a projection body
+                P = gen_comb(rng, 1, rng.choice([2, 3, 4]))
+                if rng.random() < 0.5:
+                    code, R = proj_code(rng, P)
+                    body = [tuple([c.split()[0]] + [int(x) for x in c.split()[1:]]) for c in code]
+                    emit(('LAMBDA', P, R, body))
+                    push(P)
+                    emit(('EXEC',))
+                else:
+                    RT = gen_leaf(rng, 1)
+                    code, R = proj_code(rng, P)
+                    body = [('CAR',)] + [tuple([c.split()[0]] + [int(x) for x in c.split()[1:]]) for c in code]
+                    emit(('LAMBDA', ('pair', P, RT), R, body))
+                    push(P)
+                    emit(('APPLY',))
+                    if rng.random() < 0.85:
+                        push(RT)
+                        emit(('EXEC',))
             elif r < 0.19:
                 emit(('PUSH', ('p', rng.choice(['int', 'nat'])), {'int': str(rng.choice([0, 1, 5, 12]))}))
                 emit(('PUSH', ('p', rng.choice(['int', 'nat'])), {'int': str(rng.choice([0, 2, 7, 100]))}))
@@ -483,6 +510,8 @@ def concretize1(rng, i, style):
         return ('DIP', i[1], concretize(rng, i[2], style))
     if i[0] in BODY1:
         return (i[0], concretize(rng, i[1], style))
+    if i[0] == 'LAMBDA':
+        return ('LAMBDA', annotate(rng, i[1], style), annotate(rng, i[2], style), concretize(rng, i[3], style))
     return i
 
 
@@ -725,7 +754,11 @@ def run(ctx: lib.Ctx) -> None:
             except Exception as e:  # noqa: BLE001  the implementation cannot even build the pushed value
                 lit_in = None
             if lit_in is not None:
-                lit_out = 'Fail' if items is None else '(Done ' + clist(c_val(x) for x in items) + ')'
+                try:
+                    lit_out = 'Fail' if items is None else '(Done ' + clist(c_val(x) for x in items) + ')'
+                except lib.InternalError:
+                    lit_in = None      # a lambda value is left on the stack: not rendered for the model comparison
+            if lit_in is not None:
                 cases.append((lit_in, lit_out))
                 meta.append((code, obs))
                 if items:
@@ -746,7 +779,10 @@ def run(ctx: lib.Ctx) -> None:
             ctx.case(code, nontrivial=True, kind=f'{style}+instr-annots:{obs[0]}', sample=None)
         # (B) twins agree
         base = twins[2][4]
+        lam = base[0] == 'ok' and any(it[1].get('prim') == 'lambda' for it in base[1])
         for style, conc, code, items, obs in twins[:2] + twins[3:]:
+            if lam and style.endswith('+instr'):
+                continue      # a lambda is left on the stack: the annotations on the instructions of its body are code, not types
             if obs != base and violations < 3:
                 ctx.violation('annotations change the result: the annotated and the stripped program differ',
                               {'annotated_code': code, 'stripped_code': twins[2][2], 'annotated_result': obs, 'stripped_result': base,
